@@ -36,7 +36,7 @@ class St:
 
 class Frame:
     __slots__ = ("func", "module", "captured", "exits", "chain", "entry_pc_len", "self_node",
-                 "cls", "loops", "declared_globals", "declared_nonlocals")
+                 "cls", "loops", "declared_globals", "declared_nonlocals", "cm_hook")
 
     def __init__(self, func, module, captured, chain, entry_pc_len=0, self_node=None, cls=None):
         self.func = func
@@ -50,6 +50,7 @@ class Frame:
         self.loops: List[Dict[str, list]] = []     # enclosing loops: states captured at break / continue
         self.declared_globals: set = set()         # names under a `global` statement
         self.declared_nonlocals: set = set()       # names under a `nonlocal` statement
+        self.cm_hook = None                        # generator run as a context manager: the with-statement it serves
 
 
 class Effect:
